@@ -2,6 +2,7 @@ package gen
 
 import (
 	"fmt"
+	"sort"
 
 	"pgregory.net/rapid"
 
@@ -45,6 +46,8 @@ type TEnv struct {
 	UseBindings int
 	// BindingPositions counts uses by position for statistics.
 	Uses map[string]int
+	// RepeatOps lets TypedSequence write a schema-preserving operator twice.
+	RepeatOps bool
 	// NoRenameReuse disables project's renaming onto existing column names.
 	NoRenameReuse bool
 	// ForceQuote: column names that must be written in backticks because an
@@ -326,6 +329,29 @@ func (g *G) TypedOp(kind string, s Schema, env *TEnv, joinDepth int) (Op, Schema
 		if !usable {
 			return nil, s, false
 		}
+		if !env.NoRenameReuse && len(s) <= 4 && len(s.anyUsable()) == len(s) && g.n("rewriteall", 6) == 0 {
+			// every column kept under its name, some of them recomputed from the
+			// old columns (a = a + 1, or a swap): a stage that can be repeated
+			pa := &Project{}
+			for _, c := range s {
+				id := ColIdent(c.Name)
+				if g.n("keepcol", 2) == 0 {
+					pa.Cols = append(pa.Cols, &Col{Name: &id})
+					continue
+				}
+				var x Expr
+				switch c.T {
+				case TInt:
+					x = g.IntExpr(1, s, env.plain(), env, "project")
+				case TStr:
+					x = g.StrExpr(1, s, env.plain(), env, "project")
+				default:
+					x = g.BoolExpr(1, s, env.plain(), env, "project")
+				}
+				pa.Cols = append(pa.Cols, &Col{Name: &id, X: g.FixParens(x)})
+			}
+			return pa, append(Schema{}, s...), true
+		}
 		p := &Project{}
 		var ns Schema
 		used := map[string]bool{}
@@ -458,6 +484,20 @@ func (g *G) TypedOp(kind string, s Schema, env *TEnv, joinDepth int) (Op, Schema
 		return &Count{}, Schema{{Name: "count()", T: TInt}}, true
 	case "as":
 		name := g.Fresh("N")
+		if env != nil && len(env.Base) > 0 && g.chance("asbasename", 6) {
+			// the name of a stored table: from here on the name denotes this
+			// intermediate result
+			var bases []string
+			for b := range env.Base {
+				if _, taken := env.Named[b]; !taken {
+					bases = append(bases, b)
+				}
+			}
+			sort.Strings(bases)
+			if len(bases) > 0 {
+				name = pickFrom(g, "asbase", bases)
+			}
+		}
 		return &As{Name: Ident{Name: name}}, s, true
 	case "render":
 		for _, c := range s {
@@ -493,9 +533,10 @@ func (g *G) TypedOp(kind string, s Schema, env *TEnv, joinDepth int) (Op, Schema
 		}
 		rt := env.JoinTables[0]
 		env.JoinTables = env.JoinTables[1:]
-		rs0, ok := env.Base[rt]
+		// an `as` name hides a stored table of the same name
+		rs0, ok := env.Named[rt]
 		if !ok {
-			rs0 = env.Named[rt]
+			rs0 = env.Base[rt]
 		}
 		right, rs := g.TypedPipeline(rt, rs0, g.n("rlen", 4), env, joinDepth-1, true)
 		li, ri := s.usable(TInt), rs.usable(TInt)
@@ -525,6 +566,13 @@ func (g *G) TypedOp(kind string, s Schema, env *TEnv, joinDepth int) (Op, Schema
 			conds = append(conds, eq())
 		default:
 			return nil, s, false
+		}
+		if g.n("onlytrue", 14) == 0 {
+			// nothing but the constant: every pair matches
+			conds = []Expr{ID("true")}
+			if g.chance("twotrue", 3) {
+				conds = []Expr{&Paren{X: ID("true")}, ID("true")}
+			}
 		}
 		for len(conds) < 3 && g.n("extracond", 3) == 0 {
 			switch g.n("extrakind", 7) {
@@ -604,6 +652,10 @@ func (g *G) TypedPipeline(table string, s Schema, n int, env *TEnv, joinDepth in
 			continue
 		}
 		t.Ops = append(t.Ops, op)
+		if _, isAs := op.(*As); !isAs && sameSchema(s, ns) && g.n("repeatop", 8) == 0 {
+			// the very same operator once more (its text is identical)
+			t.Ops = append(t.Ops, op)
+		}
 		if as, isAs := op.(*As); isAs && !right {
 			if env.Named == nil {
 				env.Named = map[string]Schema{}
@@ -620,6 +672,18 @@ func (g *G) TypedPipeline(table string, s Schema, n int, env *TEnv, joinDepth in
 	return t, s
 }
 
+func sameSchema(a, b Schema) bool {
+	if len(a) != len(b) {
+		return false
+	}
+	for i := range a {
+		if a[i].Name != b[i].Name || a[i].T != b[i].T || a[i].Unusable != b[i].Unusable {
+			return false
+		}
+	}
+	return true
+}
+
 // TypedSequence instantiates a fixed sequence of operator kinds (the
 // exhaustive part of C02); kinds that are not applicable are skipped.
 func (g *G) TypedSequence(table string, s Schema, kinds []string, env *TEnv, joinDepth int) (*Tabular, Schema, int) {
@@ -632,6 +696,9 @@ func (g *G) TypedSequence(table string, s Schema, kinds []string, env *TEnv, joi
 		}
 		applied++
 		t.Ops = append(t.Ops, op)
+		if _, isAs := op.(*As); env != nil && env.RepeatOps && !isAs && sameSchema(s, ns) && g.n("repeatop", 8) == 0 {
+			t.Ops = append(t.Ops, op)
+		}
 		if as, isAs := op.(*As); isAs {
 			if env.Named == nil {
 				env.Named = map[string]Schema{}
